@@ -832,12 +832,9 @@ _dispatch_verif_timer_heap_validate(dispatch_timer_heap_t dth, uint32_t tidx,
 		msg = "minimum slots not cleared on an empty heap";
 		goto out;
 	}
-	for (idx = count; idx < _dispatch_timer_heap_capacity(segments); idx++) {
-		if (idx >= DTH_ID_COUNT && *_dispatch_timer_heap_get_slot(dth, idx)) {
-			msg = "non-empty slot beyond count";
-			goto out;
-		}
-	}
+	// slots beyond count are not checked: when a segment stops being the last
+	// one its trailing segment pointers are copied, not cleared, and are only
+	// overwritten by the next insertion
 	if (what == 0) { // disarm
 		if (dt->dt_heap_entry[DTH_TARGET_ID] != DTH_INVALID_ID ||
 				dt->dt_heap_entry[DTH_DEADLINE_ID] != DTH_INVALID_ID) {
